@@ -4,7 +4,7 @@ import ast
 
 from sa import pyflow
 from sa.symbols import Program
-from sa.loader import AnalysisError, enclosing_function
+from sa.loader import parent_chain, AnalysisError, enclosing_function
 
 EXPLANATION = (
     "Sibling agreement and wiring analysis: (R1) every attribute main_with_args reads from its `args` "
@@ -512,6 +512,37 @@ def rule_r8(repo, run):
     run.floor(R, "reads of a parent's options", n, 6)
 
 
+def rule_r9(repo, run):
+    R = run.rule("C14.R9", "scope hygiene: siblings share their parent, per-declaration passes read the declaration's "
+                           "options, inline attribute values are kept token for token")
+    from sa import lints
+    mods = ("ast", "generate", "wrapc", "wrapf", "wrapp", "wrapl")
+    found, n = lints.library_options_in_node_pass(repo, mods)
+    for mn, q, node, msg in found:
+        run.fail(R, "%s.%s:options" % (mn, q), msg, repo.module(mn).loc(node))
+    run.rules[R]["obligations"] += n - len(found)
+    run.rules[R]["discharged"] += n - len(found)
+    run.floor(R, "`options = ...` bindings in per-declaration functions", n, 15)
+    for mn, q, node, msg in lints.rebound_parameter_in_loop(repo, "ast", "add_declarations", "parent"):
+        run.fail(R, "%s.%s:parent" % (mn, q), msg + " - options/format of a block leak onto the declarations after it",
+                 repo.module(mn).loc(node))
+    run.ok(R, "ast.add_declarations:parent-invariant")
+    # Parser.attribute: every token between the outer parentheses becomes part of the value
+    dm = repo.module("declast")
+    pa = dm.func("Parser.attribute")
+    apps = [c for c in ast.walk(pa) if isinstance(c, ast.Call) and isinstance(c.func, ast.Attribute) and c.func.attr == "append"
+            and c.args and dm.seg(c.args[0]) == "self.token.value"]
+    ok = len(apps) == 1
+    if ok:
+        lp = next((a for a in parent_chain(apps[0]) if isinstance(a, ast.While)), None)
+        conds = [(dm.seg(t), pol) for t, pol in pyflow.dominating_tests(apps[0], stop=lp)] if lp is not None else None
+        ok = lp is not None and conds == []
+    run.check(R, "declast.Parser.attribute:keep-tokens", ok,
+              "inside +name(...) every token (nested parentheses included) must be appended to the value; the append is "
+              "conditional (%s), so `+dimension(2*(n+1))` inline differs from the same value under attrs:" %
+              (conds if apps else "missing"), dm.loc(pa))
+
+
 def run(repo, run, tier):
     rule_r1(repo, run)
     rule_r2(repo, run)
@@ -521,3 +552,4 @@ def run(repo, run, tier):
     rule_r6(repo, run)
     rule_x(repo, run)
     rule_r8(repo, run)
+    rule_r9(repo, run)
